@@ -24,7 +24,8 @@ RULE = (
     "load_A, load_B, dtype_rt, to_double [, sgd, copy in thorough]} up to the depth bound that end in an observing "
     "operation (every other history is a prefix of one of these and is checked as such), replayed from scratch on a "
     "fresh object for each of 5 classes x {bare, nested in CompositeTransform} x {cache initially on, off}; plus BFS "
-    "with exact state hashing to the fixpoint. Non-trivial = the history contains a cache fill (eval & cache on & "
+    "with exact state hashing to the fixpoint. The observing calls of one history use batches of 3, 1, 2, 3, ... rows in turn (BFS: "
+    "separate letters for 3-row and 1-row calls). Non-trivial = the history contains a cache fill (eval & cache on & "
     "fwd/inv) that is followed by a later observation."
 )
 ASSUMPTIONS = [
@@ -84,10 +85,17 @@ def set_params(m, j):
     return m
 
 
-def probe(cls, dtype, k=0):
+def probe(cls, dtype, k=0, rows=None):
+    """the probe batch; `rows` keeps only the first rows (the observing calls of one history use batches of different sizes:
+    a cache must not remember anything that depends on the batch it was filled with)"""
     if cls == "OneByOneConvolution":
-        return pat_tensor((2, F, 2, 2), 3 + k, 1.3, dtype=dtype)
-    return pat_tensor((3, F), 3 + k, 1.3, dtype=dtype)
+        x = pat_tensor((2, F, 2, 2), 3 + k, 1.3, dtype=dtype)
+    else:
+        x = pat_tensor((3, F), 3 + k, 1.3, dtype=dtype)
+    return x if rows is None else x[: max(1, min(rows, x.shape[0]))].clone()
+
+
+ROWS_CYCLE = (3, 1, 2)  # batch size of the n-th observing call of a history
 
 
 _SD = {}
@@ -109,6 +117,8 @@ class Sys:
         self.root = T.CompositeTransform([self.sub]) if nested else self.sub
         self.dtype = torch.float32
         self.nsteps = 0
+        self.ncalls = 0
+        self.rows = None
 
     def twin(self):
         t = build(self.cls, False)
@@ -142,6 +152,15 @@ def compare(a, b, dtype):
 def apply_op(s, op):
     """Apply op to the system. Returns None, or for observing ops the tuple of results."""
     sub, root = s.sub, s.root
+    if op in ("fwd", "inv", "fwd_bwd", "copy"):
+        s.rows = ROWS_CYCLE[s.ncalls % len(ROWS_CYCLE)]
+        s.ncalls += 1
+    elif op in ("fwd1", "inv1"):  # BFS letters: the same calls on a single row (no call counter in the BFS state)
+        s.rows = 1
+        op = op[:-1]
+    elif op in ("fwd3", "inv3"):
+        s.rows = 3
+        op = op[:-1]
     if op == "train":
         root.train()
     elif op == "eval":
@@ -178,15 +197,15 @@ def apply_op(s, op):
         s.dtype = torch.float64
     elif op == "copy":
         c = copy.deepcopy(root)
-        return c(probe(s.cls, s.dtype))[:2]
+        return c(probe(s.cls, s.dtype, rows=s.rows))[:2]
     elif op == "fwd":
         with torch.no_grad():
-            return root(probe(s.cls, s.dtype))
+            return root(probe(s.cls, s.dtype, rows=s.rows))
     elif op == "inv":
         with torch.no_grad():
-            return root.inverse(probe(s.cls, s.dtype))
+            return root.inverse(probe(s.cls, s.dtype, rows=s.rows))
     elif op == "fwd_bwd":
-        x = probe(s.cls, s.dtype).requires_grad_(True)
+        x = probe(s.cls, s.dtype, rows=s.rows).requires_grad_(True)
         y, ld = root(x)
         ((y * y).sum() + ld.sum()).backward()
         for p in sub.parameters():
@@ -199,14 +218,16 @@ def apply_op(s, op):
 
 def twin_obs(s, op):
     t = s.twin()
+    if op in ("fwd1", "inv1", "fwd3", "inv3"):
+        op = op[:-1]
     if op in ("fwd", "copy"):
         with torch.no_grad():
-            return t(probe(s.cls, s.dtype))
+            return t(probe(s.cls, s.dtype, rows=s.rows))
     if op == "inv":
         with torch.no_grad():
-            return t.inverse(probe(s.cls, s.dtype))
+            return t.inverse(probe(s.cls, s.dtype, rows=s.rows))
     if op == "fwd_bwd":
-        x = probe(s.cls, s.dtype).requires_grad_(True)
+        x = probe(s.cls, s.dtype, rows=s.rows).requires_grad_(True)
         y, ld = t(x)
         ((y * y).sum() + ld.sum()).backward()
         return y.detach(), ld.detach(), x.grad
@@ -277,7 +298,8 @@ def state_key(s):
     return (sub.training, sub.using_cache, str(s.dtype), hashlib.sha1(sd.encode()).hexdigest()[:12], _h(c.weight), _h(c.inverse), _h(c.logabsdet))
 
 
-BFS_SIGMA = ("eval", "train", "cache_on", "cache_off", "fwd", "inv", "load_A", "load_B", "setC", "to_double", "to_float")
+BFS_SIGMA = ("eval", "train", "cache_on", "cache_off", "fwd", "inv", "fwd1", "inv1", "load_A", "load_B", "setC", "to_double", "to_float")
+BFS_OBS = OBS + ("fwd1", "inv1")
 
 
 def bfs_apply(s, op):
@@ -292,6 +314,8 @@ def bfs_apply(s, op):
         s.root.float()
         s.dtype = torch.float32
         return None
+    if op in ("fwd", "inv"):
+        op = op + "3"  # fixed batch sizes in the BFS (3 rows resp. 1 row for fwd1/inv1): the state hash has no call counter
     return apply_op(s, op)
 
 
@@ -330,7 +354,7 @@ def run_bfs(cls, nested, seed, cap):
                     r = bfs_apply(s, op)
                 except Exception as e:
                     try:
-                        if op in OBS:
+                        if op in BFS_OBS:
                             twin_obs(s, op)
                         okref = True
                     except Exception:
@@ -339,7 +363,7 @@ def run_bfs(cls, nested, seed, cap):
                         sym = "%s: %s" % (type(e).__name__, " ".join(str(e).split())[:60])
                         violation(res, "%s|%s@after:%s|raises %s" % (cls, op, cause, sym), case, "bfs history %s: %s raised %s" % (list(h2), op, str(e)[:160]))
                     continue
-                if op in OBS:
+                if op in BFS_OBS:
                     res["traces"] += 1
                     bad = compare(r, twin_obs(s, op), s.dtype)
                     if bad:
@@ -377,7 +401,7 @@ def replay_bfs(case):
                 sym = "%s: %s" % (type(e).__name__, " ".join(str(e).split())[:60])
                 out.append({"key": "%s|%s@after:%s|raises %s" % (case["cls"], o, cause, sym), "msg": "bfs history %s: %s raised %s" % (hist, o, str(e)[:160]), "case": case})
             return out
-        if last and o in OBS:
+        if last and o in BFS_OBS:
             bad = compare(r, twin_obs(s, o), s.dtype)
             if bad:
                 out.append({"key": "%s|%s@after:%s|stale or wrong result" % (case["cls"], o, cause), "msg": "bfs history %s: %s" % (hist, bad), "case": case})
